@@ -6,8 +6,9 @@
 # so that other runs using /repo are not disturbed; the worktree is reset afterwards.
 pid=$1; n=$2; shift 2
 checks="${@:-$pid}"
-src=/tmp/wt_$pid/out
-dst=/verif/seeded/${pid}_m$n
+round=${ROUND:-1}
+if [ "$round" = "1" ]; then src=/tmp/wt_$pid/out; tag=m; else src=/tmp/wt${round}_$pid/out; tag=r${round}m; fi
+dst=/verif/seeded/${pid}_${tag}$n
 wt=/tmp/wt_eval
 [ -d $wt ] || git -C /repo worktree add -q $wt HEAD
 cd $wt || exit 2
